@@ -35,6 +35,9 @@ def classify(scn, line):
 def check(run):
     thorough = run.tier == "thorough"
     run.model_check("MC_TopicStore", "MC_TopicStore.cfg")
+    run.model_check("MC_Trie", "MC_Trie_subs.cfg")
+    run.model_check("MC_Trie", "MC_Trie_ret.cfg")
+    run.negative_control("MC_Trie", "MC_Trie_ret_neg.cfg", "OneKey")
     seqs = vlib.gen_behaviours(run, "TopicStoreGen", "Gen_TopicStore.cfg", GEN % (5 if thorough else 4))
     sim = vlib.gen_behaviours(run, "TopicStoreGen", "Gen_TopicStore_sim.cfg", GEN % (10 if thorough else 8),
                               simulate="num=%d" % (400 if thorough else 60), depth=(11 if thorough else 9))
